@@ -21,3 +21,4 @@ def run(prog, chk):
     C.clear_resets(prog, chk, "C02.d", H)
     C.swap_handover(prog, chk, "C02.e", list(H))
     C.bucket_index(prog, chk, "C02.f", H)
+    C.iterator_param_alias(prog, chk, "C02.g", H)
